@@ -36,8 +36,10 @@ def chunkCost (c : Chunk) : Nat :=
   (4 * c.data.length + 128) +
   (match c.ty with
    | .cel | .tileset =>
-       -- inflated bytes (≤ 1032 n + 1032) x (growth slack 2 + typed copy 2) + bookkeeping
-       4 * (1032 * c.data.length + 1032) + 2048
+       -- inflated bytes N ≤ 1032 n + 1032: the byte buffer with growth slack (2 N), and the typed
+       -- copy, which for tiles is 8 bytes per 4-byte entry (2 N) in a vector that grows by doubling
+       -- (capacity up to 4 N, with the old block of 2 N alive while it moves): 7 N at the worst
+       7 * (1032 * c.data.length + 1032) + 2048
    | .layer => (if c.data.length ≥ 18 then 65535 else 0) + 64 * c.data.length + 1024
    | _ => 64 * c.data.length + 1024)
 
